@@ -267,6 +267,8 @@ def run_scenario(sc):
     else:
         w = PrintrunWriter("serial", "localhost", "/dev/fake", 115200)
     w.connect()
+    if sc.get("timeout"):
+        w.set_timeout(sc["timeout"])       # the connection timeout; a slow acknowledgement must still be waited for
     dev = FifoDevice.inst
     if sc.get("quiescent", True):
         wait_idle(dev, quiet=0.3)
@@ -489,6 +491,9 @@ def main():
         dict(text="M105", pre=[], term=(0.02, "ok T:210.0 /210.0 B:60.0 /60.0"), reading=("T", 210.0), between=[]),
         dict(text="G1 X9999", pre=[], term=(0.02, "error: 20"), reading=None, between=[]),
         dict(text="G1 X1", pre=[], term=(0.0, "ok"), reading=None, between=[])])))
+    scen.append(("corpus-slow-ack-beyond-timeout", dict(quiescent=True, timeout=0.3, stmts=[
+        dict(text="G1 X100 F60", pre=[], term=(0.8, "ok"), reading=None, between=[]),
+        dict(text="M114", pre=[(0.0, "X:100.00 Y:0.00 Z:4.50 E:0.00")], term=(0.02, "ok"), reading=("Z", 4.5), between=[])])))
     scen.append(("corpus-socket", dict(quiescent=True, mode="socket", stmts=[
         dict(text="M105", pre=[(0.0, "<Idle|MPos:1.000,2.000,3.000|FS:100,0>")], term=(0.05, "ok T:199.5 /210.0 B:60.0 /60.0"), reading=("T", 199.5), between=[]),
         dict(text="G1 X5 Y5 F600", pre=[], term=(0.08, "ok"), reading=None, between=["ALARM:1"]),
